@@ -134,11 +134,16 @@ def enumToken (k : OpKind) (s : String) : Option Int :=
     | none => bareEnumOrder.findSome? (enumLookup · m)
   | _ => none
 
+/-- registers: `r0`–`r15` ↦ 0–15, `sp` ↦ 16, `ra` ↦ 17; and, for code BEFORE register allocation (C04), the virtual
+    registers `v0`, `v1`, … ↦ 100, 101, … (never produced by the transpiler's final output) -/
 def regOfToken (s : String) : Option PReg :=
   if s == "sp" then some 16 else if s == "ra" then some 17 else
   match s.toList with
   | 'r' :: ds => match natOfDigits 10 ds with
     | some n => if n < 16 && String.mk ds == toString n then some n else none
+    | none => none
+  | 'v' :: ds => match natOfDigits 10 ds with
+    | some n => if String.mk ds == toString n then some (100 + n) else none
     | none => none
   | _ => none
 
